@@ -426,7 +426,7 @@ open LccModel.Loader (PVal Params Seg Meta Disabled LoadErr)
 def pay : TestDecl :=
   { attr := "pay", desc := some "Pay with currency", rank := 3, disabled := .reason "sandbox is down",
     md := { tags := ["net"], props := [("prio", "high")], links := [("http://t/1", none)] },
-    deps := [["payments", "regular"]],
+    deps := [.path ["payments", "regular"]], args := ["currency"],
     param := some ([[("currency", .str "EUR")], [("currency", .str "USD")], [("currency", .str "GBP")]], .default) }
 
 def regular : TestDecl := { attr := "regular", desc := some "Regular test", rank := 1 }
